@@ -13,7 +13,7 @@ LEVEL = "exploration"
 RULE = ("All expression ASTs over connectives not/and/or (optional 'not' on every node) with <= 3 (quick) / <= 4 "
         "(thorough) operand occurrences over a literal+wildcard operand alphabet; each rendered minimal-paren, "
         "fully-parenthesised, double-parenthesised, with @ on all/alternating operands, with doubled spaces and in "
-        "list-of-terms form; each rendering evaluated by behave on ALL 256 subsets of the 8-tag universe and compared "
+        "list-of-terms form (plain terms, one term, terms written as '(left) op (right)'); each rendering evaluated by behave on ALL 256 subsets of the 8-tag universe and compared "
         "with an independent evaluator; str()/to_string() re-parsed must give the same table; {config.tags} "
         "substitution through Configuration.setup_tag_expression. A case is non-trivial (and counted distinct by its "
         "AST) when its reference truth table is neither constant nor equal to the table of one bare operand.")
@@ -130,6 +130,15 @@ def r_dbl(ast):
     return "((%s %s %s))" % (r_dbl(ast[1]), k, r_dbl(ast[2]))
 
 
+def r_sides(ast):
+    """binary node: "(left) op (right)" - both sides parenthesised, no outer parentheses; padded with blanks"""
+    if ast[0] in ("and", "or"):
+        return " (%s) %s (%s) " % (r_min(ast[1]), ast[0], r_min(ast[2]))
+    if ast[0] == "not":
+        return "not (%s)" % r_min(ast[1])
+    return "(%s)" % ast[1]
+
+
 def conjuncts(ast):
     if ast[0] == "and":
         return conjuncts(ast[1]) + conjuncts(ast[2])
@@ -146,6 +155,8 @@ def renderings(ast):
     yield "spaces", "  " + base.replace(" ", "  ") + " "
     yield "list", [r_min(c) for c in conjuncts(ast)]
     yield "list1", [base]
+    # list of terms whose texts begin with "(" and end with ")" without being ONE parenthesised group
+    yield "list_parens", [r_sides(c) for c in conjuncts(ast)]
 
 
 # ---- the case function -----------------------------------------------------
